@@ -180,6 +180,24 @@ def simplex_stream(ctx, n):
                 ctx.disagree("C17:segment:length", desc, float(np.linalg.norm(a0 - b0)), ln[1:3], replay=[desc])
             if mid[0] != "ok" or not np.allclose(mid[1][:3], (a0 + b0) / 2, atol=1e-8):
                 ctx.disagree("C17:segment:midpoint", desc, ((a0 + b0) / 2).tolist(), mid[1:3] if mid[0] != "ok" else mid[1].tolist(), replay=[desc])
+            # end points given by representatives with different (also negative) homogeneous factors
+            f1, f2 = rng.choice([2.0, -1.0, 0.5, 3.0]), rng.choice([1.0, -2.0, 4.0, 0.25])
+            sm = call_impl(lambda: np.asarray(g.Segment(g.Point(np.append(a0, 1.0) * f1), g.Point(np.append(b0, 1.0) * f2)).midpoint.normalized_array, dtype=float))
+            ctx.count("segment:midpoint:vertex-factors")
+            if not np.allclose(a0, b0) and (sm[0] != "ok" or not np.allclose(sm[1][:3], (a0 + b0) / 2, atol=1e-8)):
+                ctx.disagree("C17:segment:midpoint:vertex-factors", desc + f" factors {f1}, {f2}", ((a0 + b0) / 2).tolist(), sm[1:3] if sm[0] != "ok" else sm[1].tolist(), replay=[desc])
+            if ar > 0:
+                f3 = rng.choice([1.0, -1.0, 2.0])
+                c0 = np.array([float(x) for x in pts[2]])
+                cc = call_impl(lambda: np.asarray(g.Triangle(g.Point(np.append(a0, 1.0) * f1), g.Point(np.append(b0, 1.0) * f2), g.Point(np.append(c0, 1.0) * f3)).circumcenter.normalized_array, dtype=float))
+                ctx.count("triangle3d:circumcenter:vertex-factors")
+                okc = cc[0] == "ok" and np.all(np.isfinite(cc[1]))
+                if okc:
+                    ds = [np.linalg.norm(cc[1][:3] - x) for x in (a0, b0, c0)]
+                    okc = max(ds) - min(ds) <= 1e-7 * max(1.0, max(ds)) and abs(np.dot(np.cross(b0 - a0, c0 - a0), cc[1][:3] - a0)) <= 1e-7 * max(1.0, max(ds)) * np.linalg.norm(np.cross(b0 - a0, c0 - a0))
+                if not okc:
+                    ctx.disagree("C17:circumcenter:vertex-factors", desc + f" factors {f1}, {f2}, {f3}", "equidistant point in the plane of the triangle",
+                                 cc[1:3] if cc[0] != "ok" else cc[1].tolist(), replay=[desc])
 
 
 def regular_stream(ctx, n):
